@@ -495,7 +495,7 @@ def obligations(tier):
             obs.append(Ob(path_index, fixed=fx, pre=_cs(n, K, names) + ' and -%d <= i <= %d' % (n + 2, n + 2),
                           name='path_index_n%d' % n))
         if n <= (1 if q else 2):
-            obs.append(Ob(path_slice, fixed=fx, pre=_cs(n, K, names) + ' and ' + _dom(n), name='path_slice_n%d' % n))
+            obs.append(Ob(path_slice, fixed=fx, pre=_cs(n, K if n < 2 else 4, names) + ' and ' + _dom(n), name='path_slice_n%d' % n))
     for n in range(0, 3):
         for m in range(0, n + 1):
             fx = {'n': n, 'm': m}
@@ -503,7 +503,8 @@ def obligations(tier):
                 fx[nm] = 0
             for nm in ['d0', 'd1', 'd2'][m:]:
                 fx[nm] = 0
-            pre = ' and '.join([_cs(n, K, ['c0', 'c1', 'c2']), _cs(m, K, ['d0', 'd1', 'd2']), '0 <= spell <= 1'])
+            Km = K if n + m < 4 else 4          # sized: 4^4 x 2 paths for the longest pair
+            pre = ' and '.join([_cs(n, Km, ['c0', 'c1', 'c2']), _cs(m, Km, ['d0', 'd1', 'd2']), '0 <= spell <= 1'])
             obs.append(Ob(path_rel, fixed=fx, pre=pre, name='path_rel_n%d_m%d' % (n, m)))
     for np_ in (1, 2):
         for nq in (1, 2):
